@@ -50,6 +50,12 @@ class PoolCheck:
 
             sweeps = cid if cid in _sw.SPECS else None
         self.sweeps = sweeps
+        if self.sweeps:
+            self.rule += ("; family 'sweep': one perturbing operation (" + ", ".join(__import__("vf.sweeps", fromlist=["SPECS"]).SPECS[self.sweeps]) + ") placed at every loop "
+                          "iteration (head and tail queue position) and at every user-code point of 12 hand-written base scenarios - quick tier: a seed-dependent stride through that table, "
+                          "thorough tier: the complete table plus 6000 sampled pairs of placements")
+        if KNOWN_CASES.get(cid):
+            self.rule += "; family 'known': hand-written histories reproducing each recorded finding"
 
     def prepare(self):
         from . import mods
@@ -253,14 +259,14 @@ reg(PoolCheck(
 ))
 
 reg(PoolCheck(
-    "C02", P(w={"cancel": 7, "cancel_group": 5, "cancel_all": 2, "stop": 6, "flush": 4, "intruder": 4, "reject": 0, "probe": 1},
+    "C02", P(w={"cancel": 7, "cancel_group": 5, "cancel_all": 2, "stop": 6, "flush": 4, "intruder": 4, "reject": 0, "probe": 1, "set_size": 1.2},
              cb=0.7, cb_gate=0.35, inner_ops=0.25),
     "cancel/flush-heavy random scenarios with slow, gated and raising callbacks; cancellations placed by conductor, intruder tasks, "
     "workers and callbacks incl. before a task's first step; non-trivial = a cancellation was delivered and a flush or async callback overlapped; "
     "distinct by operation/situation sequence + event-bigram signature",
     lambda s: any(k.startswith("cancel.") for k in s) and (s.get("C13.flush_returned") or s.get("cb.e.async") or s.get("cb.c.async")),
     6000, 240000,
-    floors={"cancel.id.unbegun": 20, "cancel.group.unbegun": 20, "C02.probe.idle": 1500, "C02.idle_checks.busy": 500},
+    floors={"cancel_with_msg": 200, "cancel.id.unbegun": 20, "cancel.group.unbegun": 20, "C02.probe.idle": 1500, "C02.idle_checks.busy": 500},
 ))
 
 reg(PoolCheck(
